@@ -43,6 +43,8 @@ def run(tier, seed):
     o, us = grid.cuboid_obligations("C04"); obs += o; fns += [{"fn": u.label, "slice_sha": u.sha} for u in us]
     for name, f in (("signed_area_tri", geomhelpers.signed_area_tri), ("signed_volume_tet", geomhelpers.signed_volume_tet)):
         o, us = f("C04." + name); obs += o; fns += [{"fn": u.label, "slice_sha": u.sha} for u in us]
+        for x in o:
+            if not x.expect_sat and x.replay is None: x.replay = geomhelpers.replay_helper
     smt.discharge_all(obs, tier)
     results = [runner.from_smt(o) for o in obs]
     n, bad = geomhelpers.validate_translation(seed, 10 if tier == "quick" else 200)
